@@ -193,6 +193,7 @@ class AutoRestartTrick(Trick):
         self._is_process_stopping = False
         self._is_trick_stopping = False
         self._stopping_lock = threading.RLock()
+        self._restart_lock = threading.Lock()
 
     def start(self) -> None:
         if self.debounce_interval_seconds:
@@ -210,10 +211,12 @@ class AutoRestartTrick(Trick):
                 return
             self._is_trick_stopping = True
 
-        process_watcher = self.process_watcher
         if self.event_debouncer is not None:
             self.event_debouncer.stop()
-        self._stop_process()
+        # Wait for a restart that is in flight (it will not start a new process any more).
+        with self._restart_lock:
+            process_watcher = self.process_watcher
+            self._stop_process()
 
         # Don't leak threads: Wait for background threads to stop.
         if self.event_debouncer is not None:
@@ -222,14 +225,16 @@ class AutoRestartTrick(Trick):
             process_watcher.join()
 
     def _start_process(self) -> None:
-        if self._is_trick_stopping:
-            return
+        # stop() sets the flag under the same lock: either we see it, or stop() sees our process.
+        with self._stopping_lock:
+            if self._is_trick_stopping:
+                return
 
-        # windows doesn't have setsid
-        self.process = subprocess.Popen(self.command, preexec_fn=getattr(os, "setsid", None))
-        if self.restart_on_command_exit:
-            self.process_watcher = ProcessWatcher(self.process, self._restart_process)
-            self.process_watcher.start()
+            # windows doesn't have setsid
+            self.process = subprocess.Popen(self.command, preexec_fn=getattr(os, "setsid", None))
+            if self.restart_on_command_exit:
+                self.process_watcher = ProcessWatcher(self.process, self._restart_process)
+                self.process_watcher.start()
 
     def _stop_process(self) -> None:
         # Ensure the body of the function is not run in parallel in different threads.
@@ -277,9 +282,12 @@ class AutoRestartTrick(Trick):
     def _restart_process(self) -> None:
         if self._is_trick_stopping:
             return
-        self._stop_process()
-        self._start_process()
-        self.restart_count += 1
+        # One restart at a time: a restart triggered by an event and one triggered by
+        # the process exiting by itself must not both start a process.
+        with self._restart_lock:
+            self._stop_process()
+            self._start_process()
+            self.restart_count += 1
 
 
 if platform.is_windows():
